@@ -12,12 +12,16 @@ between (`C11_table_stable`); a placeholder handed out for a new key was never u
 empty text or tail is not distinguished from a missing one - on the maker's initial state
 (`C11_roundtrip_element_fresh_maker`) and on every state that satisfies the table and heap invariants
 (`C11_roundtrip_element`), for any nesting of formatting and single elements, repeated and empty ones included.
-Not proved: the round trip of a whole document through `do_tree` / `undo_tree` (text tags nested in text tags go
-through the heap of detached elements); it is decided per run by the oracle on the real maker and by unit U7 on the
-model.
+The round trip of a whole document (`Undo7.lean`, `Undo8.lean`): when no text tag lies inside a text tag, `do_tree`
+is a left-to-right traversal that replaces every text element in place (`doTree_eq_doAll`), `undo_element` on the root
+- which is what `undo_tree` calls - gives the document back up to `normT` in the state `do_tree` left
+(`C11_roundtrip_tree`), and `do_tree` keeps the maker's invariants (`C11_do_tree_keeps_invariants`), so this holds for
+a maker that has already processed any number of such documents (`C11_roundtrip_tree_fresh_maker` is the first one).
+Not proved: documents with a text tag nested in a text tag (the inner one is substituted while detached, through the
+heap); decided per run by the oracle on the real maker and by unit U7 on the model.
 -/
 import XmlDiffModel.Proofs.Placeholder
-import XmlDiffModel.Proofs.Undo6
+import XmlDiffModel.Proofs.Undo8
 
 namespace XmlDiffModel
 
@@ -79,6 +83,37 @@ theorem C11_roundtrip_element_fresh_maker (tt ft : List Str) (e : Tree) (hn : (T
     have := (Undo.phInit_elemIds tt ft x hx).1
     have := hid i hi
     omega
+
+/-- **Round trip of a whole document**: on any maker state with the invariants `Undo.TInv` (one-to-one table, opening
+entries record closing entries, entries point to their elements), for a document whose node identities are new to
+the maker (`Undo.Fresh`), whose texts and tails have no character from U+E000 on, and in which no text tag lies
+inside a text tag: `undo_element` on the root of what `do_tree` returned, in the state `do_tree` left, returns a
+document with the normal form of the original, for every sufficiently large fuel. -/
+theorem C11_roundtrip_tree (st : PhSt) (de : List (Nat × Tree)) (t : Tree) (inv : Undo.TInv st de)
+    (fr : Undo.Fresh st de (Tree.ids t)) (hlow : Undo.LowT t) (hnn : Undo.NonNested st.textTags t)
+    (hb : (doTree t st).2.counter < 0x110000) :
+    ∃ r, Undo.normT r = Undo.normT t ∧ ∃ N, ∀ f, N ≤ f →
+      undoElement f (doTree t st).2 de (doTree t st).1 = .ok (r, []) := by
+  by_cases hne : st.textTags = []
+  · obtain ⟨N, hN⟩ := Undo.roundtrip_tree_notags st de t inv.closed hlow hne
+    exact ⟨t, rfl, N, hN⟩
+  · exact Undo.roundtrip_tree st de t inv fr hlow hne hnn hb
+
+/-- `do_tree` keeps the invariants, adds only entries and heap objects that belong to the document, and every entry of
+the earlier state still points to the same object: the round-trip theorem applies again to the next document (whose
+node identities must be new, as Python objects are). -/
+theorem C11_do_tree_keeps_invariants (st : PhSt) (de : List (Nat × Tree)) (t : Tree) (inv : Undo.TInv st de)
+    (fr : Undo.Fresh st de (Tree.ids t)) (hlow : Undo.LowT t) (hnn : Undo.NonNested st.textTags t) :
+    Undo.Trav st (doTree t st).2 de (Tree.ids t) :=
+  Undo.doTree_trav st de t inv fr hlow hnn
+
+/-- The first document of a fresh maker (`PlaceholderMaker.__init__`, any text and formatting tags). -/
+theorem C11_roundtrip_tree_fresh_maker (tt ft : List Str) (t : Tree) (hn : (Tree.ids t).Nodup)
+    (hid : ∀ i ∈ Tree.ids t, i < 900001) (hlow : Undo.LowT t) (hnn : Undo.NonNested (phInit tt ft).textTags t)
+    (hb : (doTree t (phInit tt ft)).2.counter < 0x110000) :
+    ∃ r, Undo.normT r = Undo.normT t ∧ ∃ N, ∀ f, N ≤ f →
+      undoElement f (doTree t (phInit tt ft)).2 diffElemList (doTree t (phInit tt ft)).1 = .ok (r, []) :=
+  C11_roundtrip_tree _ diffElemList t (Undo.phInit_tinv tt ft) (Undo.phInit_fresh tt ft _ hn hid) hlow hnn hb
 
 /-- Non-vacuity of the round trip: a text element with nested, repeated and empty formatting elements and single
 elements meets every hypothesis of `C11_roundtrip_element_fresh_maker` (the restoring functions are defined by
